@@ -121,10 +121,21 @@ func c06Play() int {
 	if n, _ := strconv.Atoi(os.Getenv("VERIF_C06_LOOPS")); n > 1 {
 		loops = n
 	}
+	// optional op range [from, to): the history may be split over several processes
+	from, _ := strconv.Atoi(os.Getenv("VERIF_C06_FROM"))
+	to := len(c.Ops)
+	if t, err := strconv.Atoi(os.Getenv("VERIF_C06_TO")); err == nil && t > 0 && t < to {
+		to = t
+	}
+	allOps := c.Ops
+	cc := *c
+	cc.Ops = allOps[from:to]
+	c = &cc
+	e.Case = c
 	opBase := 0
 	for l := 0; l < loops; l++ {
 		_, err = e.Exec(vlib.WitnessTarget{W: w}, vlib.RunOpts{NoSnapshots: true, AfterUpdate: func(e *vlib.Env, _ vlib.Target, st *vlib.Step) error {
-			a := ack{Op: opBase + st.Index, Log: st.Req.LogIdx, Verdict: st.Verdict, BeginIdx: atomic.LoadInt64(&beginIdx), CommitIdx: atomic.LoadInt64(&commitIdx)}
+			a := ack{Op: from + opBase + st.Index, Log: st.Req.LogIdx, Verdict: st.Verdict, BeginIdx: atomic.LoadInt64(&beginIdx), CommitIdx: atomic.LoadInt64(&commitIdx)}
 			if st.Verdict == vlib.VAccepted {
 				h := e.ScanCheckpoint(st.Out)
 				sum := sha256.Sum256(st.Out)
@@ -146,6 +157,7 @@ func c06Play() int {
 }
 
 type dumpOut struct {
+	Logs   []string          `json:"logs"` // what GetLogs lists after the restart
 	Rows   map[string]string `json:"rows"` // log index -> base64 checkpoint
 	Probes []dumpProbe       `json:"probes"`
 	Err    string            `json:"err,omitempty"`
@@ -184,6 +196,11 @@ func c06Dump() int {
 		return emit()
 	}
 	ctx := context.Background()
+	out.Logs, err = w.GetLogs()
+	if err != nil {
+		out.Err = "GetLogs after restart: " + err.Error()
+		return emit()
+	}
 	for i, id := range e.LogIDs {
 		b, err := w.GetCheckpoint(id)
 		if err != nil {
@@ -228,8 +245,16 @@ func c06Dump() int {
 		if h.Size == 0 {
 			delta = 0 // growth from a stored size 0 is known finding F2
 		}
-		_, err = w.Update(ctx, id, h.Size, mk(h.Branch, h.Size+delta), h.Branch.Consistency(h.Size, h.Size+delta))
-		out.Probes = append(out.Probes, dumpProbe{Log: i, Kind: "honest", Verdict: vlib.Classify(err), Detail: fmt.Sprint(err)})
+		ret, err := w.Update(ctx, id, h.Size, mk(h.Branch, h.Size+delta), h.Branch.Consistency(h.Size, h.Size+delta))
+		p := dumpProbe{Log: i, Kind: "honest", Verdict: vlib.Classify(err), Detail: fmt.Sprint(err)}
+		if err == nil {
+			// acknowledged by the restarted process: it must really be stored
+			back, rerr := w.GetCheckpoint(id)
+			if rerr != nil || !bytes.Equal(back, ret) {
+				p.Kind, p.Detail = "honest-not-stored", fmt.Sprintf("the restarted witness acknowledged %d -> %d but a read returns %d bytes (err %v), not what it returned", h.Size, h.Size+delta, len(back), rerr)
+			}
+		}
+		out.Probes = append(out.Probes, p)
 	}
 	return emit()
 }
@@ -241,9 +266,13 @@ type c06Model struct {
 	acks  []ack
 }
 
-func runChild(mode, casePath, dbPath, kill string, loops int, killAfter time.Duration) (acks []ack, calls int, stdout []byte, state *os.ProcessState, err error) {
+func runChild(mode, casePath, dbPath, kill string, loops int, killAfter time.Duration, opRange ...int) (acks []ack, calls int, stdout []byte, state *os.ProcessState, err error) {
 	cmd := exec.Command(os.Args[0])
-	cmd.Env = append(os.Environ(), "VERIF_CHILD="+mode, "VERIF_C06_CASE="+casePath, "VERIF_C06_DB="+dbPath, "VERIF_C06_KILL="+kill, "VERIF_C06_LOOPS="+strconv.Itoa(loops))
+	rng := []int{0, 0}
+	if len(opRange) == 2 {
+		rng = opRange
+	}
+	cmd.Env = append(os.Environ(), "VERIF_C06_FROM="+strconv.Itoa(rng[0]), "VERIF_C06_TO="+strconv.Itoa(rng[1]), "VERIF_CHILD="+mode, "VERIF_C06_CASE="+casePath, "VERIF_C06_DB="+dbPath, "VERIF_C06_KILL="+kill, "VERIF_C06_LOOPS="+strconv.Itoa(loops))
 	var so, se bytes.Buffer
 	cmd.Stdout, cmd.Stderr = &so, &se
 	pr, pw, perr := os.Pipe()
@@ -372,6 +401,30 @@ func checkAfterCrash(e *vlib.Env, c *vlib.HistCase, full []ack, got []ack, dump 
 			return "", fmt.Errorf("%s: after restart log %d holds %+v, which is neither the state before the interrupted update (%+v) nor the one being written (%+v)", what, li, cur, b, a)
 		}
 	}
+	// the list of known logs is exactly the logs that hold a checkpoint
+	{
+		want := map[string]bool{}
+		for li := range c.Logs {
+			if _, ok := dump.Rows[strconv.Itoa(li)]; ok {
+				want[e.LogIDs[li]] = true
+			}
+		}
+		seen := map[string]bool{}
+		for _, id := range dump.Logs {
+			if seen[id] {
+				return "", fmt.Errorf("%s: after restart the log list contains %s twice", what, id[:8])
+			}
+			seen[id] = true
+			if !want[id] {
+				return "", fmt.Errorf("%s: after restart the witness lists log %s but holds no checkpoint for it (half-written first use)", what, id[:8])
+			}
+		}
+		for id := range want {
+			if !seen[id] {
+				return "", fmt.Errorf("%s: after restart the witness holds a checkpoint for %s but does not list it", what, id[:8])
+			}
+		}
+	}
 	// every acknowledged update is still in force
 	for i, a := range got {
 		if a.Verdict != vlib.VAccepted {
@@ -390,7 +443,7 @@ func checkAfterCrash(e *vlib.Env, c *vlib.HistCase, full []ack, got []ack, dump 
 	// the restarted witness
 	for _, p := range dump.Probes {
 		switch p.Kind {
-		case "unscannable":
+		case "unscannable", "honest-not-stored":
 			return "", fmt.Errorf("%s: after restart log %d: %s", what, p.Log, p.Detail)
 		case "fork", "fork-as-first-use", "same-size-fork":
 			if p.Verdict == vlib.VAccepted || p.Changed {
@@ -407,7 +460,7 @@ func checkAfterCrash(e *vlib.Env, c *vlib.HistCase, full []ack, got []ack, dump 
 
 var profC06 = vlib.Profile{
 	Prop: "C06", MinLogs: 1, MaxLogs: 3, MinOps: 1, MaxOps: 5,
-	Storages: []string{"sqlfile"}, MaxJump: 40, OtherLogPct: 35, Decorate: 10,
+	Storages: []string{"sqlfile"}, MaxJump: 40, OtherLogPct: 35, Decorate: 10, NoReplay: true,
 	Weights: map[string]int{"grow": 50, "refresh": 16, "badproof": 8, "wrongold": 6, "fork": 8, "wrongkey": 4, "mismatch": 4, "tofufork": 4},
 }
 
@@ -434,8 +487,41 @@ func runC06(c *vlib.HistCase, st *vlib.Stats, onlyPoint string) (bool, []string,
 		return false, nil, fmt.Errorf("harness: %v", err)
 	}
 	e := vlib.NewEnv(c)
+	// optional restart inside the history: ops[:k] are served by one process (which exits
+	// normally), ops[k:] by a second one, and the crash points are those of the second
+	k := 0
+	if c.Extra != nil {
+		switch v := c.Extra["restart_at"].(type) {
+		case float64:
+			k = int(v)
+		case int:
+			k = v
+		}
+	}
+	if k < 0 || k >= len(c.Ops) {
+		k = 0
+	}
+	base := filepath.Join(dir, "base.db")
+	var pre []ack
+	if k > 0 {
+		var perr error
+		pre, _, _, _, perr = runChild("c06play", casePath, base, "", 1, 0, 0, k)
+		if perr != nil || len(pre) != k {
+			return false, nil, fmt.Errorf("harness: first process of the history failed: %v (acks=%d)", perr, len(pre))
+		}
+	}
+	fresh := func(name string) string {
+		p := filepath.Join(dir, name)
+		if k > 0 {
+			if b, err := os.ReadFile(base); err == nil {
+				_ = os.WriteFile(p, b, 0o644)
+			}
+		}
+		return p
+	}
 	// dry run: acks and number of driver calls of the fault-free execution
-	full, calls, _, _, err := runChild("c06play", casePath, filepath.Join(dir, "dry.db"), "", 1, 0)
+	full2, calls, _, _, err := runChild("c06play", casePath, fresh("dry.db"), "", 1, 0, k, len(c.Ops))
+	full := append(append([]ack{}, pre...), full2...)
 	if err != nil || calls <= 0 || len(full) != len(c.Ops) {
 		return false, nil, fmt.Errorf("harness: dry run failed: %v (calls=%d acks=%d)", err, calls, len(full))
 	}
@@ -468,9 +554,13 @@ func runC06(c *vlib.HistCase, st *vlib.Stats, onlyPoint string) (bool, []string,
 			defer wg.Done()
 			sem <- struct{}{}
 			defer func() { <-sem }()
-			dbp := filepath.Join(dir, fmt.Sprintf("crash-%d-%s.db", p.k, p.phase))
+			dbp := fresh(fmt.Sprintf("crash-%d-%s.db", p.k, p.phase))
 			what := fmt.Sprintf("crash %s driver call %d of %d", p.phase, p.k, calls)
-			got, _, _, ps, err := runChild("c06play", casePath, dbp, fmt.Sprintf("%d:%s", p.k, p.phase), 1, 0)
+			if k > 0 {
+				what += fmt.Sprintf(" (of the process started after op %d)", k)
+			}
+			got2, _, _, ps, err := runChild("c06play", casePath, dbp, fmt.Sprintf("%d:%s", p.k, p.phase), 1, 0, k, len(c.Ops))
+			got := append(append([]ack{}, pre...), got2...)
 			if err != nil {
 				results[i] = res{p: p, err: fmt.Errorf("harness: %v", err)}
 				return
@@ -541,6 +631,9 @@ func TestC06Points(t *testing.T) {
 	sc := vlib.StatsFor("C06", "cases", "histories whose crash points were enumerated completely (each history = one generated case); non-trivial = history with a crash point inside an accepted update of a log that already had a checkpoint")
 	rapid.Check(t, func(rt *rapid.T) {
 		c := vlib.GenHist(rt, profC06)
+		if len(c.Ops) >= 2 && rapid.Bool().Draw(rt, "restart") {
+			c.Extra = map[string]any{"restart_at": rapid.IntRange(1, len(c.Ops)-1).Draw(rt, "restart_at")}
+		}
 		nt, classes, err := runC06(c, st, "")
 		sc.Record(c.Hash(), nt, nil, sampleOf(c))
 		_ = classes
@@ -605,6 +698,9 @@ func init() {
 		}
 		cc := *c
 		cc.Extra = nil
+		if c.Extra != nil && c.Extra["restart_at"] != nil {
+			cc.Extra = map[string]any{"restart_at": c.Extra["restart_at"]}
+		}
 		_, _, err := runC06(&cc, vlib.StatsFor("C06", "points", ruleC06), p)
 		return err
 	})
